@@ -30,6 +30,32 @@ CLAIMED["C19"] = dict(
    text="PARTIAL. Theorems C19_serving_until_stop / C19_clients_served / C19_disconnect_is_local / C19_stop / C19_socket_file (Coq, every sequence of start / connect / send / disconnect / stop labels, any number of clients, both transports): serve_forever returns a task and the server listens until that task is cancelled; every client is answered, a disconnect changes no other session; after the cancellation the address accepts nothing, is_serving is false, and the task completes exactly when every connected client has gone (not earlier), whereupon a Unix server's socket file is gone. The theorems are about a model of the lifecycle logic on top of asyncio's stream-server contract; kernel sockets, the selector loop and time cannot be carried by a theorem: they are exercised by the correspondence, which runs the same label sequences against real TCP and Unix servers with raw clients and the bundled CLI client (subprocess) and compares listening / task completion / socket file / per-client replies and server-side close after every label (bounded waits; a hang shows as a timeout where the model predicts completion).",
    note="Trusted: Coq 8.16.1 kernel; extraction; ocaml/sdriver.ml; harness/srvrun.py (real sockets, subprocess CLI client, bounded waits of VERIF_SRV_TIMEOUT seconds per label); the hand-written lifecycle model theories/srv/SModel.v incl. its rendering of asyncio's Server.close/wait_closed contract (CPython 3.12.1), validated only on explored sequences. Theorems closed under the global context.",
    technique="Coq proof (inductive invariant of the lifecycle state machine) + model/implementation correspondence over real sockets", design="6 C19, 7")
+
+TB_POOL = ("Trusted: Coq 8.16.1 kernel; extraction (ExtrOcamlBasic, ExtrOcamlString); OCaml driver (parsing/printing); "
+           "Python harness: steploop.py (replaces only the event loop's outer iteration; Tasks, Futures, Semaphore, gather are "
+           "CPython 3.12.1's), poolrun.py (harness-owned workers, callbacks, argument iterables), poolgen.py. The hand-written "
+           "model theories/pool/PModel.v of pool.py + the asyncio slice it uses is tied to /repo by lockstep correspondence "
+           "(checked on explored traces, not proved). Preconditions are explicit in the theorems: P-unlock (no unlock() once "
+           "gather_and_close() was requested), and where stated P-size / P-self (open finding D11) / P-iter. Driver tasks are "
+           "never cancelled; exceptions raised by the argument iterator itself are not modelled. All theorems closed under the "
+           "global context.")
+TECH_POOL = "Coq proof (inductive invariant WF + auxiliary invariants over all label sequences; per-instant / per-step specifications) + lockstep model/implementation correspondence at single-handle granularity + extracted monitor as search oracle"
+def pool(pid, text, design=None):
+    CLAIMED[pid] = dict(text=text, note=TB_POOL, technique=TECH_POOL, design=design or f"I.6 {pid}, I.7, I.3")
+pool("C01", "Theorem C01 (Coq, unbounded: every pool size incl. 0 and unbounded, every label sequence = every schedule and every placement of spawn/cancel/finish/flush/close operations at handle boundaries or inside workers, callbacks, argument iterators): at every instant num_running <= size, the started-and-unfinished workers <= size, an unbounded pool is never full, and at a quiet idle point is_full <=> num_running = size. Obtained from the inductive invariant WF (slot conservation capacity = free + in_use, no-lost-wake-up, ready-handle layer) proved preserved by every step of the model. The extracted model is compared with the real pool after every event-loop handle; the monitor clauses C01.* are evaluated on the implementation's stream.")
+pool("C02", "Theorem C02: at every quiet idle point every task filed as running is a started worker waiting on its own pending future, nothing is filed as cancelled and free = capacity - running; every task's slot is released at most once and exactly once when it is done, its end callback ran exactly once, a done task is not filed running/cancelled - including tasks cancelled before their first step (they go through the cancel path in the model as in the repaired code); when nothing is in flight the free count is the pool size. From WF layers I2, I3, I5, IH.")
+pool("C03", "Theorems C03 (registries partition the tasks; nr+nc+ne+forgotten = created; per-task callback counters as a function of the program counter: cancel callback at most once and strictly before the end callback, end callback exactly once, slot released before it; the task counts as cancelled / ended while the respective callback runs; callbacks run to completion under P-self), C03_transitions (per step: running->cancelled->ended, running->ended, ended->forgotten only), C03_cancel_cb_iff (cancel callback iff the worker ended by a propagated CancelledError or was cancelled before starting), C03_end_cb_class. Open finding D11 (self-cancellation from a worker's final segment) is excluded by P-self and reported as KNOWN-FINDING.")
+pool("C04", "Theorem C04: per apply/start request - never more tasks than requested; every task carries the request's function behaviour, callbacks and a distinct invocation index; a spawner that ended normally with its group not cancelled made exactly num invocations (0 if the call raises); a spawner never ends with an exception (in particular not PoolIsLocked/PoolIsClosed after lock()/gather_and_close()) and is cancelled only with its group; at a quiet idle point an unfinished request is blocked for room (is_full); its tasks are in the returned group. From WF layers IR, IM, IG, I4, I5, IGr + Extra_B.")
+pool("C05", "Theorem C05: per map/starmap/doublestarmap request - each task was made from one non-bad element with that element's behaviour, at most one per element; the consumed prefix equals created + skipped (order, nothing skipped or repeated); pulled <= created + skipped + 1; live tasks of the call <= num_concurrent; at a quiet idle point a call with elements left that is not held up by a full pool has exactly num_concurrent tasks running. From WF layer IR (incl. the per-call semaphore conservation) + Extra_map' (the first formulation of that auxiliary invariant was refuted by a reachable 9-label run, kept as a theorem).")
+pool("C06", "Theorems C06 (the operation, every state: some id not running => the error class of the FIRST such id by its classification and the pool unchanged; all running => exactly the named task records get a cancellation request, repeated ids idempotent, every other record/registry unchanged), C06_delivered (a started task with a request pending has a ready handle and observes exactly one CancelledError at its next step), C06_no_spurious / C06_only_by_cancel / C06_mark_consumed (a worker logs CancelledError only if a request was outstanding; a request becomes outstanding only through a cancellation operation that names the task; it is consumed when delivered).")
+pool("C07", "Theorems C07_group (cancel_group on every reachable state: unknown name => InvalidGroupName and the pool unchanged; known => the group is forgotten and its name free, other groups' registers untouched, every request of that name dead, every unfinished task of the group gets exactly one cancellation request, other tasks and other groups' spawners untouched, registries and free count unchanged), C07_all (the same for cancel_all over all groups), C07_no_late (in every later step a request whose group was cancelled creates no task and never advances its iterator again; P-iter as in the property's own text).")
+pool("C09", "Theorem C09 (holds for EVERY state, no invariant needed): a rejected apply/map/starmap/doublestarmap/start leaves every field of the pool unchanged (no group, no spawner, no call, no pull); the checks are ordered type -> closed -> locked -> value -> duplicate name; a negative pool size raises ValueError and changes nothing; lock/unlock are idempotent and unlock restores acceptance.")
+pool("C10", "Theorem C10: live group names are unique, their registers pairwise disjoint, every id in a register was created for that group, and every task is in the register of the group it was created for unless that group was cancelled since (requests are keyed by request, not by name, so name re-use is covered). Name freshness: a request under a live name is rejected (C09) and generated names are re-checked the same way; get_group_ids is compared by the correspondence at every label.")
+pool("C11", "Theorems C11 (the tasks created so far are exactly the ids 0..num_started-1 in creation order; every id known to a registry or group is below num_started) and C11_never_reused (ids issued = tasks filed + tasks forgotten, so flushing never lowers the next id). Task names and the ids passed to callbacks are compared by the correspondence; independence across several pools in one loop and distinct names of unnamed pools are exercised directly on the implementation (the model has one pool) - that clause is tested, not proved.")
+pool("C13", "Theorems C13_step (in every step of every clean run a task that leaves the registries had finished; when a flush completes, the running and cancelled registries are untouched and its whole snapshot is forgotten) and C13_trace (once flush() has returned normally, no task that had finished before the call is still remembered, whatever happened while it waited, including overlapping flushes). 'flush(return_exceptions=True) never raises' is part of C12.")
+pool("C14", "Theorems C14 (stop(n) returns firstn n (rev running) = min(n, num_running) ids, its effect is that of cancel() on exactly those, n <= 0 cancels nothing, stop_all returns all) and C14_newest_first (the running registry is kept in start order along every clean run, so the result is strictly descending and every running id not returned is older than every returned one).")
+pool("C15", "REFUTED + PARTIAL (two open known findings, D5/D6, not repaired - see DESIGN I.9). Theorems C15_getter_refuted and C15_setter_refuted give concrete witness runs (by vm_compute) on which the full statement fails - the getter returns the free count; an increase does not wake waiting spawners - and the check replays them on the implementation and prints KNOWN-FINDING lines; C15_partial proves what does hold: a negative value raises ValueError and changes nothing, the value read while no slot is in use is the configured one, an assignment makes v the number of free slots and disturbs no task. Any other failing clause, or one of these outside its signature, is still reported as a violation.")
+
 NOT_YET = "not claimed in this revision: the check for this property is not registered yet (see DESIGN.md 11 staging)"
 
 checks = []
